@@ -316,7 +316,10 @@ class Shard(ShardCMC):
                 data_size += len(minishard.databytearray)
                 del minishard.databytearray
 
+            num_slots = int(2 ** self.shard_spec.minishard_bits)
             sh_size = 0
+            # Byte range of the index of each minishard, by minishard number
+            minishard_index_ranges = {}
             for minishard in sorted_mini_dict:
                 # turning [0, 1, 2, 3, 4, 5] into [0, 3, 1, 4, 2, 5]
                 num_cols = int(len(minishard.header) / 3)
@@ -326,27 +329,28 @@ class Shard(ShardCMC):
                 hdr_buf = self.shard_spec.index_encoder(hdr_buf)
                 fp.write(hdr_buf)
 
-                sh_idx_buf += struct.pack("<Q", data_size + sh_size)
-
-                sh_size += len(hdr_buf)
-                sh_idx_buf += struct.pack("<Q", data_size + sh_size)
-
-            sh_idx_len = len(sh_idx_buf)
-            if sh_idx_len != (2 ** self.shard_spec.minishard_bits) * 16:
-                print(f"Writing shard index: Expected "
-                      f"{(2 ** self.shard_spec.minishard_bits) * 16} bytes, "
-                      f"got {sh_idx_len}. Padding the rest with empty bytes.")
-
-                if sh_idx_len >= (2 ** self.shard_spec.minishard_bits) * 16:
+                # The n-th entry of the shard index describes minishard
+                # number n, which is derived from the identifier of (any of)
+                # its chunks.
+                minishard_number = int(
+                    self.shard_spec.minishard_mask
+                    & self._hash(np.uint64(minishard.header[0])))
+                if (minishard_number in minishard_index_ranges
+                        or minishard_number >= num_slots):
                     raise ShardedIOError(
-                        f"sh_idx_len {sh_idx_len!r} should always be <= "
-                        "(2 ** self.shard_spec.minishard_bits) * 16:"
-                        f"{(2 ** self.shard_spec.minishard_bits) * 16}")
+                        f"Invalid minishard number {minishard_number!r}: "
+                        f"there must be at most {num_slots} distinct "
+                        "minishards in a shard")
+                minishard_index_ranges[minishard_number] = (
+                    data_size + sh_size, data_size + sh_size + len(hdr_buf))
+                sh_size += len(hdr_buf)
 
-                while sh_idx_len < (2 ** self.shard_spec.minishard_bits) * 16:
-                    sh_idx_buf += struct.pack("<Q", data_size + sh_size)
-                    sh_idx_buf += struct.pack("<Q", data_size + sh_size)
-                    sh_idx_len = len(sh_idx_buf)
+            for minishard_number in range(num_slots):
+                # Empty minishards are represented by an empty byte range
+                sh_idx_buf += struct.pack(
+                    "<QQ", *minishard_index_ranges.get(
+                        minishard_number,
+                        (data_size + sh_size, data_size + sh_size)))
 
             fp.seek(0)
             fp.write(bytes(sh_idx_buf))
